@@ -26,7 +26,8 @@ func init() {
 			" R14 a rewrite lands in the slot it matched (parent.<name>[index] of the current match)." +
 			" R2 also: every '...' closes a section; R7 also: connectDots covers every '+' elision before it reports success." +
 			" R15 who interprets an elision: *pgo.Dots is recognised only by the elision tests handed to compileSliceDots, by compileForStmt and by the implicit-elision helpers (inventory: a further place is reported for review)." +
-			" R16 the start of the patch is read before splitPatch moves the lines past their markers.",
+			" R16 the start of the patch is read before splitPatch moves the lines past their markers." +
+			" R17 startsWithDotsAt compares Line with Line and Column with Column and no two whole token.Position values.",
 		Trusted:     commonTrusted,
 		Assumptions: commonAssumptions,
 	})
@@ -49,6 +50,7 @@ func runC04(r *an.Run) {
 	// whether a leading "..." is the implicit one is decided against the start of the patch: that position
 	// is read before the lines are moved past their markers
 	positionsReadBeforeStrip(r, "R16-the-patch-start-is-read-before-the-markers-are-stripped")
+	positionsOfTwoFilesByLineAndColumn(r, "R17-positions-of-two-files-are-compared-by-line-and-column")
 }
 
 const tokIDENT = 4
@@ -576,6 +578,47 @@ func c04AnchoringAndConsumption(r *an.Run) {
 	}
 
 	r.Rule("R5-search-completeness")
+	// the last position tried is the last one at which the section fits, len(got)-len(want): for an empty section
+	// (two "..." next to each other) that is the END of the list — with `i < len(got)` a pattern that ends in an
+	// explicit "..." no longer matches an instance that is the last thing in its block
+	for _, c := range an.Calls(ms) {
+		if an.StaticCallee(c) != mp || !loop.Blocks[c.Block()] {
+			continue
+		}
+		a := c.Common().Args
+		if len(a) < 2 {
+			continue
+		}
+		phi, isPhi := a[len(a)-1].(*ssa.Phi)
+		iff, isIf := loop.Header.Instrs[len(loop.Header.Instrs)-1].(*ssa.If)
+		good := false
+		found := "no comparison in the loop header"
+		if isPhi && isIf {
+			if cmp, ok := iff.Cond.(*ssa.BinOp); ok {
+				d := an.Lin(cmp.X).Sub(an.Lin(cmp.Y))
+				op := cmp.Op
+				pk := an.AtomKey(phi)
+				if d.Terms[pk] == -1 {
+					d = an.Lin(cmp.Y).Sub(an.Lin(cmp.X))
+					switch op {
+					case token.GEQ:
+						op = token.LEQ
+					case token.GTR:
+						op = token.LSS
+					case token.LEQ:
+						op = token.GEQ
+					case token.LSS:
+						op = token.GTR
+					}
+				}
+				found = cmp.X.Name() + " " + cmp.Op.String() + " " + cmp.Y.Name() + " (" + d.String() + " " + op.String() + " 0)"
+				wantK, gotK := "len("+an.Path(a[0])+")", "len("+an.Path(a[1])+")"
+				shape := len(d.Terms) == 3 && d.Terms[pk] == 1 && d.Terms[wantK] == 1 && d.Terms[gotK] == -1
+				good = shape && (op == token.LEQ && d.K == 0 || op == token.LSS && d.K == -1) && loop.Blocks[iff.Block().Succs[0]]
+			}
+		}
+		r.Check(good, short(ms)+"|tries-up-to-the-last-fitting-position", c.Pos(), "the candidate loop runs while i+len(want) <= len(got): the last position tried is the last one at which the section still fits, which for an empty section is the end of the list (found: %s)", found)
+	}
 	// every possibly-true return reachable from the loop body is behind a rest call's true verdict
 	for _, ret := range an.PossiblyTrueReturns(ms, vidx) {
 		fromLoop := false
@@ -1205,7 +1248,11 @@ func dotsRecordSite(f *ssa.Function) (site ssa.Instruction, alloc *ssa.Alloc) {
 	}
 	for _, c := range an.Calls(f) {
 		h := an.StaticCallee(c)
-		if h == nil || !an.InModule(h) || h.Blocks == nil || h.Signature.Results().Len() != 1 || !strings.HasSuffix(an.ShortType(h.Signature.Results().At(0).Type()), "augment.Dots") {
+		// a private helper of the package that builds the Dots: one that returns it, or one that records it itself
+		if h == nil || !an.InModule(h) || h.Blocks == nil || an.FuncPkgPath(h) != an.FuncPkgPath(f) {
+			continue
+		}
+		if n := h.Signature.Results().Len(); n > 1 || n == 1 && !strings.HasSuffix(an.ShortType(h.Signature.Results().At(0).Type()), "augment.Dots") {
 			continue
 		}
 		for _, b := range h.Blocks {
